@@ -5,7 +5,7 @@ from vlib.core import Case
 
 ID = "C27"
 COMPONENTS = ["s_compress"]
-T4 = ["Compression"]
+T4 = ["Framing"]
 PROOF_MODULES = ["GrpcProofs.Properties.C27"]
 THEOREMS = ["GrpcProofs.C27." + t for t in (
     "payload_format_constants",
